@@ -448,6 +448,7 @@ func (cu *CodeUtils) BuildFuncMap() template.FuncMap {
 
 		"IsBaseType":        IsBaseType,
 		"ZeroWriter":        ZeroWriter,
+		"ZeroWriterOf":      ZeroWriterOf,
 		"NeedRedirect":      NeedRedirect,
 		"IsFixedLengthType": IsFixedLengthType,
 		"SupportIsSet":      SupportIsSet,
